@@ -1,7 +1,10 @@
 //! vh: harness that drives the real ipc-channel crate for the correspondence check.
+mod conc;
+mod crash;
 mod frag;
 mod shm;
 mod util;
+mod vanish;
 
 fn main() {
     let args: Vec<String> = std::env::args().collect();
@@ -9,8 +12,14 @@ fn main() {
         eprintln!("usage: vh <driver>");
         std::process::exit(2);
     }
+    // force the crate's lazily computed send-buffer size now, so that its probe socketpair
+    // does not show up inside the first traced operation
+    let _ = ipc_channel::platform::OsIpcSender::get_max_fragment_size();
     match args[1].as_str() {
         "frag" => frag::run(),
+        "conc" => conc::run(),
+        "vanish" => vanish::run(),
+        "crash" => crash::run(),
         "shm" => shm::run(),
         other => {
             eprintln!("unknown driver {}", other);
